@@ -432,7 +432,11 @@ def nnx_history():
   op = st.one_of(
       st.tuples(st.just('draw'), st.sampled_from(NAMES + ['default', 'other'])),
       st.tuples(st.just('call'), st.just('')),
-      st.tuples(st.just('split'), st.integers(1, 3)),
+      # (number of splits, only this stream or all, splits spelled as a
+      # tuple, squeeze when a single split)
+      st.tuples(st.just('split'), st.tuples(
+          st.integers(1, 3), st.sampled_from([None, None] + NAMES),
+          st.booleans(), st.booleans())),
       st.tuples(st.just('restore'), st.just(0)),
       st.tuples(st.just('reseed'), st.sampled_from(NAMES + ['default'])),
       st.tuples(st.just('getitem'), st.sampled_from(NAMES + ['other'])),
@@ -446,7 +450,8 @@ def nnx_history():
 @clause('nnx_rngs_history', strategy=nnx_history, quick=600, thorough=40000,
         quick_shards=4,
         rule='histories (3-25 steps) of stream draws (named, missing->default,'
-        ' rngs(), rngs[name]), split_rngs / restore_rngs, reseed (seed given '
+        ' rngs(), rngs[name]), split_rngs (all streams or only=one, splits as '
+        'int or tuple, squeeze) / restore_rngs, reseed (seed given '
         'as an int or as a key array) on an '
         'nnx.Rngs with an optional default and 0-3 named streams (distinct '
         'seeds); model = stream -> (seed, count); every key equals fold_in('
@@ -526,21 +531,47 @@ def nnx_rngs_history(case, ctx):
     elif op == 'split':
       if backups is not None or not model:
         continue
+      if isinstance(arg, int):
+        arg = (arg, None, False, False)
+      arg, only, as_tuple, squeeze = arg
+      squeeze = squeeze and arg == 1
+      kw = {}
+      if only is not None:
+        kw['only'] = only
+      if squeeze:
+        kw['squeeze'] = True
       with sut('split_rngs'):
-        backups = nnx.split_rngs(rngs, splits=arg)
+        backups = nnx.split_rngs(rngs, splits=(arg,) if as_tuple and not squeeze
+                                 else arg,
+                                 **kw)
       split_state = {}
+      labels.add('split-only' if only is not None else 'split-all')
       for n, (seed, count) in model.items():
+        if only is not None and n != only:
+          # streams outside `only` are left as they are
+          st_ = getattr(rngs, n)
+          require(st_.key.value.shape == () and L.key_data(st_.key.value) ==
+                  L.key_data(jax.random.key(seed)) and int(st_.count.value)
+                  == count, lambda: f'split_rngs(only={only!r}) touched '
+                  f'stream {n}')
+          continue
         src = jax.random.fold_in(jax.random.key(seed), jnp.uint32(count))
         exp = jax.random.split(src, arg)
         got = getattr(rngs, n).key.value
+        if squeeze:
+          require(got.shape == (), lambda: f'squeezed split key shape '
+                  f'{got.shape}')
+          got = got[None]
+          cnt0 = getattr(rngs, n).count.value
+          require(cnt0.shape == () and int(cnt0) == 0, 'squeezed split count')
         require(got.shape == (arg,), f'split key shape {got.shape}')
         require(np.array_equal(jax.random.key_data(got),
                                jax.random.key_data(exp)),
                 f'split keys of stream {n} differ from split(fold_in(key, '
                 f'count), {arg})')
         cnt = getattr(rngs, n).count.value
-        require(cnt.shape == (arg,) and not np.any(np.asarray(cnt)),
-                'split counts must be zeros of the split shape')
+        require((cnt.shape == (arg,) or squeeze) and not np.any(
+            np.asarray(cnt)), 'split counts must be zeros of the split shape')
         hand_out(L.key_data(src), ('split-source', n, seed, count))
         for j in range(arg):
           hand_out(L.key_data(exp[j]), ('split', n, seed, count, j))
